@@ -149,6 +149,18 @@ pub fn check(rep: &mut CaseReport, events: &[Event], view: &WireView, p: &Params
                     let adv_bytes: u64 = if contiguous > before { stored_len.range(before + 1..=contiguous).map(|(_, l)| *l as u64).sum() } else { 0 };
                     unacked += adv_bytes;
                 }
+                // a read re-opened the window earlier in this very step, and this payload closes it
+                // again before the endpoint could announce anything: nothing is owed
+                if let Some((ti, _, why)) = immediate {
+                    if ti == e.t && why == "an application read re-opened a zero window" {
+                        let deq = dequeued(read_bytes, &stored_len, contiguous);
+                        let free = (p.capacity as u64).saturating_sub(stored_bytes_total.saturating_sub(deq));
+                        if free < seg as u64 {
+                            immediate = None;
+                            rep.counters.inc("c07_window_reopenings_closed_again_in_the_same_step");
+                        }
+                    }
+                }
                 let ooo_after = stored.range(contiguous + 1..).next().is_some();
                 if let Some((pidx, _, t, ev)) = pending_arrival.take() {
                     if pidx == idx {
